@@ -43,6 +43,7 @@ CONFIGS = [
     {"connect_timeout": 1.5, "timeout": 2.5, "no_delay": True, "keepalive": True},
     {"tls": True, "connect_timeout": 1.5, "timeout": 2.5},
     {"tls": True, "no_delay": True},
+    {"ignore_exc": True, "timeout": 2.5},
 ]
 OPS = [("set", ("k", b"v"), {"noreply": False}), ("get", ("h1",), {}), ("get_many", (["h1", "h2"],), {}),
        ("set", ("k", b"v"), {"noreply": True}), ("delete_many", (["h1", "m1"],), {"noreply": False})]
@@ -132,7 +133,7 @@ def judge(case, obs):
                 closes = [h for h in s.history if h[0] == fakenet.T_CLOSE]
                 if not closes or closes[0][4] != i:
                     # closed later (or never): still open when the failed call returned
-                    if rec["out"][0] == "exc":
+                    if rec["out"][0] == "exc" or cfg.get("ignore_exc"):
                         v("FAILED_SOCKET_LEFT_OPEN", "socket %d failed (%r) in call %d but was not closed before that call returned"
                           % (s.sid, s.fault_kind, i))
     # (d) after a failed call the next un-faulted call works on a fresh socket
